@@ -56,7 +56,7 @@ AllocateBlock(o) ==
           \/ /\ fails < MaxFails                                          \* the source throws: nothing changes
              /\ fails' = fails + 1 /\ UNCHANGED <<used, cached, out, nextb>>
   /\ UNCHANGED <<status, src, nextsrc, bad, retlog>>
-  /\ hist' = Append(hist, [op |-> "alloc_block", o |-> o])
+  /\ hist' = Append(hist, [op |-> "alloc_block", o |-> o, res |-> IF Len(used'[o]) > Len(used[o]) THEN Top(used'[o]) ELSE 0])
 
 (* memory_arena::deallocate_block *)
 DeallocateBlock(o) ==
@@ -150,5 +150,9 @@ NotWitnessShrinkTwoCached == ~(\E i \in 1..Len(hist) : hist[i].op = "shrink") \/
 NotWitnessFailThenGrow == ~(fails > 0 /\ nextb > 2)
 View == <<used, cached, status, src, out, nextb, nextsrc, fails, bad>>
 Emit == PrintT(<<"BEHAVIOUR", ToJson(hist')>>)
+\* behaviour generation for one arena object (allocate_block incl. a refusing source, deallocate_block, shrink_to_fit):
+\* the history records the block every allocate_block returns; the real memory_arena is driven along it
+GenNext == AllocateBlock(1) \/ DeallocateBlock(1) \/ ShrinkToFit(1)
+GenSpec == Init /\ [][GenNext]_vars
 HistBound == Len(hist) < MaxHist
 =============================================================================
